@@ -237,6 +237,41 @@ theorem xNtt_definedAt (L : Nat) (hL : L ≤ 31) : DefinedAt xNtt (2^L) := by
   rw [xkNtt, algTransform_eq]
   exact this
 
+/-! ### base-field operand × extension-field operand -/
+
+/-- the embedding `ZMod P → XK` commutes with the operations of the model NTT (base-field twiddles on both sides) -/
+theorem zToXHom : OpsHom zOps (algOps XK) id φ where
+  szero := rfl
+  sone := rfl
+  smul := fun _ _ => rfl
+  spow := fun _ _ => rfl
+  sinv := fun a => by simp [algOps, ringOps]
+  sinv0 := fun _ => rfl
+  sofNat := fun _ => rfl
+  zero := map_zero φ
+  add := fun a b => map_add φ a b
+  sub := fun a b => map_sub φ a b
+  scale := fun c a => map_mul φ c a
+
+/-- the model NTT over `ZMod P` and over `XK` correspond along the embedding -/
+theorem zNtt_to_xk (xs : List (ZMod P)) : (zNtt.ntt xs).map (List.map φ) = xkNtt.ntt (xs.map φ) := by
+  have h1 := ntt_map zToXHom zRoot xs.toArray
+  simp only [Option.map_id_fun, id_eq] at h1
+  simp only [zNtt, xkNtt, nttTransform, ← List.map_toArray, ← h1, Option.map_map]
+  congr 1; funext y; simp
+
+theorem xkNtt_id (xs : List XK) :
+    (xkNtt.ntt xs).map (List.map (RingHom.id XK)) = xkNtt.ntt (xs.map (RingHom.id XK)) := by
+  simp
+
+/-- `BFieldElement * XFieldElement` on canonical values / triples is the product in `XK` -/
+theorem xc_mulBX (a : Nat) (b : X3) : xc (xscale a b) = φ (zc a) * (RingHom.id XK) (xc b) := by
+  simp [xc_scale, zc]
+
+/-- `XFieldElement * BFieldElement` -/
+theorem xc_mulXB (a : X3) (b : Nat) : xc (xscale b a) = (RingHom.id XK) (xc a) * φ (zc b) := by
+  simp [xc_scale, zc, mul_comm]
+
 end XField
 
 end TF.Model.Poly
